@@ -39,3 +39,30 @@ DESCR = {
 
 _PENDING = "check not built yet in this round; see DESIGN.md §3 for the plan"
 NOT_APPLICABLE = {p: _PENDING for p in ["C%02d" % i for i in range(1, 20)]}
+
+VAL = "verif_values::"
+NONCE = "attributes::stun::nonce::verif_nonce::"
+QS_STRUCT = "quoted-string grammar not run: Nonce built directly from structurally assembled text on which trimming is the identity (over-approximation: any such text may be a nonce)"
+QS = "quoted_string_parser::QuotedStringParser::validate -> qs_any (arbitrary verdict: over-approximates the pest grammar)"
+prop("C19", [
+    H("stunrs", VAL + "c19_message_types_total", timeout=300, mem_gb=3, covers=0, stubs=[NOFMT],
+      bounds="all u16 / u8 arguments", funcs=["MessageType::from<u16>", "MessageType::as_u16", "MessageMethod::try_from", "MessageClass::try_from", "MessageType::encode", "AttributeType::*", "AlgorithmId::from", "AddressFamily::try_from"]),
+    H("stunrs", VAL + "c19_error_code_total", timeout=300, mem_gb=3, covers=1, stubs=[NOFMT],
+      bounds="all u16 error codes, fixed 3-byte reason", funcs=["types::ErrorCode::new/class/number/reason"]),
+    H("stunrs", VAL + "c19_password_algorithms_clone_mutate", timeout=300, mem_gb=4, covers=2, stubs=[NOFMT],
+      bounds="0 or 1 element, clone, one add on either copy, arbitrary algorithm ids",
+      funcs=["PasswordAlgorithms::add/clone/password_algorithms"]),
+    H("stunrs", VAL + "c19_unknown_attributes_clone_mutate", timeout=300, mem_gb=4, covers=1, stubs=[NOFMT],
+      bounds="1 element, clone, one add on either copy, arbitrary u16 values",
+      funcs=["UnknownAttributes::add/clone/attributes"]),
+] + [
+    H("stunrs", NONCE + "c19_nonce_cookie_k%d_w%d" % (k, w), timeout=600, mem_gb=8, covers=None, stubs=[NOFMT, QS_STRUCT], playback=False,
+      tier="quick" if (k, w) in ((2, 2), (3, 2), (4, 2), (3, 3)) else "thorough",
+      bounds="nonce = 'obMatJos2' + %d printable ASCII chars + one %d-byte UTF-8 char (all code points of that width) + 'xyz'" % (k, w),
+      funcs=["Nonce::new", "Nonce::is_nonce_cookie", "Nonce::security_features", "strings::formatted_quoted_string_from"])
+    for (k, w) in ((0, 2), (1, 2), (2, 2), (3, 2), (4, 2), (1, 3), (2, 3), (3, 3))
+], outside="strings longer than 17 bytes; PRECIS on non-ASCII input; public functions not listed in functions_encoded")
+DESCR["C19"] = {
+    "level": "Bounded model checking of the value types' public constructors/accessors/conversions over their whole integer domains, of clone-then-mutate sequences on the Arc-backed types, and of the nonce-cookie accessors on structurally assembled multi-byte strings; absence of any reachable panic/overflow/slice failure is what CBMC checks.",
+    "note": "Trusted: Kani/CBMC; qs_any over-approximates the quoted-string grammar (counterexamples through it are model-level and are confirmed by a native replay before a fix is made); error texts stubbed (nofmt).",
+}
